@@ -1,6 +1,6 @@
 (* C01/Props.v — the property theorems claimed for C01, nothing else. *)
 Require Import Base.Prelude Base.XVal.
-Require Import C01.Model C01.ProofsChunk C01.ProofsKernels C01.ProofsMean C01.ProofsReduce C01.Generated C01.Plans.
+Require Import C01.Model C01.ProofsChunk C01.ProofsKernels C01.ProofsMean C01.ProofsReduce C01.ProofsHill C01.ProofsRamp C01.Generated C01.Plans.
 Require Import Permutation.
 
 (* map_overlap(F, depth=(dy,dx), boundary=nan) = F on the whole raster, cell for
@@ -160,6 +160,93 @@ Example C01_reduce_nonvacuous :
   fold_right Z.add 0 (cells X) = 138 /\
   fold_right Z.max 0 (flat_map cells (blocks cy cx X)) = 23.
 Proof. vm_compute. repeat split; reflexivity. Qed.
+
+(* hillshade._run_numpy: np.gradient (central difference inside, one-sided on the
+   edge rows/columns), per-cell shading, explicit NaN frame — is a function of the
+   NaN-extended 3x3 window, for any arithmetic whose sub/half/shade absorb NaN *)
+Theorem C01_hillshade_local :
+  forall (T : Type) (nan : T) (sub : T -> T -> T) (half : T -> T) (shade : T -> T -> T),
+    (forall a, sub nan a = nan) -> (forall a, sub a nan = nan) -> half nan = nan ->
+    (forall b, shade nan b = nan) -> (forall a, shade a nan = nan) ->
+    LocalNaN nan (hillshade_np nan sub half shade) 1 1.
+Proof. exact @hillshade_local. Qed.
+Print Assumptions C01_hillshade_local.
+
+Theorem C01_xhill_chunked :
+  forall (X : raster xv) (cy cx : list positive),
+    sumP cy = rows X -> sumP cx = cols X -> 0 < rows X -> 0 < cols X ->
+    req (map_overlap XNaN xhill 1 1 cy cx X) (xhill X).
+Proof.
+  intros X cy cx H1 H2 H3 H4.
+  apply (map_overlap_whole XNaN xhill 1 1 1 1 xhill_local); auto; lia.
+Qed.
+Print Assumptions C01_xhill_chunked.
+
+(* perlin / generate_terrain: da.linspace's chunks (running block start) are the
+   slices of the whole linspace for EVERY chunking, in any exact arithmetic ... *)
+Theorem C01_linspace_blocks_are_slices :
+  forall (T : Type) (add : T -> T -> T) (scale : Z -> T -> T),
+    (forall a b c, add (add a b) c = add a (add b c)) ->
+    (forall i j st, scale (i + j) st = add (scale i st) (scale j st)) ->
+    (forall a st, add a (scale 0 st) = a) ->
+    forall (a st : T) (cs : list positive),
+      Forall (fun bs : (Z * Z) * T =>
+                forall i, Model.ramp add scale (snd bs) st i = Model.ramp add scale a st (fst (fst bs) + i))
+             (combine (spans 0 cs) (block_starts add scale a st cs)).
+Proof. exact @linspace_blocks_are_slices. Qed.
+Print Assumptions C01_linspace_blocks_are_slices.
+
+(* ... hence map_blocks of ANY per-cell function g(x, y) over the chunked
+   meshgrid of the two ramps equals g over the whole coordinate arrays *)
+Theorem C01_coord_blocks_whole :
+  forall (T : Type) (nan : T) (add : T -> T -> T) (scale : Z -> T -> T),
+    (forall a b c, add (add a b) c = add a (add b c)) ->
+    (forall i j st, scale (i + j) st = add (scale i st) (scale j st)) ->
+    (forall a st, add a (scale 0 st) = a) ->
+    forall (g : T -> T -> T) (ax stx ay sty : T) (cy cx : list positive) (H W : Z),
+      sumP cy = H -> sumP cx = W -> 0 < H -> 0 < W ->
+      req (coord_blocks nan add scale g ax stx ay sty cy cx) (coord_whole add scale g ax stx ay sty H W).
+Proof. exact @coord_blocks_whole. Qed.
+Print Assumptions C01_coord_blocks_whole.
+
+(* generated: on the Dask path each axis ramp is the NumPy path's ramp (same range,
+   length and endpoint rule), x along the columns, y along the rows *)
+Theorem C01_ramps_match_numpy_plan :
+  forallb coord_ok coord_plans = true /\
+  forallb (fun s => existsb (fun cp => String.eqb s (cp_site cp)) coord_plans) required_coord_sites = true /\
+  forallb (fun cp => existsb (fun p => String.eqb (cp_site cp) (p_site p)) plans) coord_plans = true.
+Proof. exact ramps_match_numpy_plan. Qed.
+Print Assumptions C01_ramps_match_numpy_plan.
+
+(* non-vacuity: np.gradient's edge rule really is one-sided in the model (the
+   unframed gradient of a 3x3 ramp), and the chunked hillshade equals the whole *)
+Example C01_hill_nonvacuous :
+  let d := [ [XFin 0; XFin 2; XFin 8]; [XFin 4; XFin 10; XFin 6]; [XFin 2; XFin 2; XFin 20]; [XFin 0; XFin 6; XFin 4] ] in
+  tabulate (grad_rows xsub xhalf (of_lists XNaN d))
+    = [ [XFin 4; XFin 8; XFin (-2)]; [XFin 1; XFin 0; XFin 6]; [XFin (-2); XFin (-2); XFin (-1)]; [XFin (-2); XFin 4; XFin (-16)] ] /\
+  run_whole xhill d = [ [XNaN; XNaN; XNaN]; [XNaN; XFin 1; XNaN]; [XNaN; XFin 85; XNaN]; [XNaN; XNaN; XNaN] ] /\
+  run_overlap xhill 1 1 [1; 2; 1]%positive [1; 1; 1]%positive d = run_whole xhill d /\
+  run_overlap xhill 0 1 [1; 2; 1]%positive [1; 1; 1]%positive d <> run_whole xhill d.
+Proof.
+  cbv zeta. split; [vm_compute; reflexivity|]. split; [vm_compute; reflexivity|].
+  split; [vm_compute; reflexivity|]. vm_compute. discriminate.
+Qed.
+
+(* non-vacuity of the ramp theorem: Z satisfies the hypotheses; a tile covering
+   x in [0,250) and y in [250,500) of a 500 extent; and feeding the row ramp from
+   the x range (the seeded change C01-D) gives a different raster *)
+Example C01_ramp_nonvacuous :
+  (forall a b c : Z, a + b + c = a + (b + c)) /\
+  zramp_blocks 0 50 250 125 [1; 1]%positive [2; 3]%positive = zramp_whole 0 50 250 125 2 5 /\
+  zramp_whole 0 50 250 125 2 5 =
+    [ [250; 50000400; 100000550; 150000700; 200000850]
+    ; [375; 50000525; 100000675; 150000825; 200000975] ] /\
+  zramp_whole 0 50 0 125 2 5 <> zramp_whole 0 50 250 125 2 5 /\
+  lenZ coord_plans = 2.
+Proof.
+  split; [intros; lia|]. split; [vm_compute; reflexivity|]. split; [vm_compute; reflexivity|].
+  split; [vm_compute; discriminate|vm_compute; reflexivity].
+Qed.
 
 (* obligations over the plans GENERATED from the source on this run *)
 Theorem C01_all_plans_ok : Forall plan_ok plans.
